@@ -34,6 +34,12 @@ type BoolFlow struct {
 	// decided and may refine the state.
 	OnCond func(cond ast.Expr, s S) S
 
+	// ForkUnknown: a boolean local assigned a value the flow cannot determine
+	// takes both values from there on (consistently), instead of staying
+	// unknown and being re-forked at every use.  Only for clients that do not
+	// observe the variable's value itself.
+	ForkUnknown bool
+
 	local map[types.Object]bool
 	done  map[*Func]bool
 }
@@ -118,6 +124,37 @@ func (bf *BoolFlow) ensure(f *Func) {
 			bf.local[p] = true
 		}
 	}
+	for _, r := range namedResults(f) {
+		if !bad[r] {
+			bf.local[r] = true
+		}
+	}
+}
+
+func namedResults(f *Func) []*types.Var {
+	var out []*types.Var
+	if f.Type == nil || f.Type.Results == nil {
+		return nil
+	}
+	for _, fl := range f.Type.Results.List {
+		for _, nm := range fl.Names {
+			if v, ok := f.Info().Defs[nm].(*types.Var); ok {
+				out = append(out, v)
+			}
+		}
+	}
+	return out
+}
+
+// ZeroResults adds the zero value of the root function's named boolean
+// results to an initial state.
+func (bf *BoolFlow) ZeroResults(s S) S {
+	for _, r := range namedResults(bf.Std.F) {
+		if IsBoolType(r.Type()) {
+			s = s.Set("v:"+VarID(r), "false")
+		}
+	}
+	return s
 }
 
 // Local reports whether o is a trackable local of the function.
@@ -395,7 +432,11 @@ func (bf *BoolFlow) node(orig func(ast.Node, S) []S, n ast.Node, s S) []S {
 			ts, fs := bf.Std.Eval.Eval(r, a.s)
 			bf.Std.Eval.OnUnknown = save
 			if unknown {
-				next = append(next, a.with(a.s, "v:"+id, ""))
+				if bf.ForkUnknown {
+					next = append(next, a.with(a.s, "v:"+id, "true"), a.with(a.s, "v:"+id, "false"))
+				} else {
+					next = append(next, a.with(a.s, "v:"+id, ""))
+				}
 				continue
 			}
 			for _, x := range ts {
@@ -508,6 +549,28 @@ func (bf *BoolFlow) inlineNode(n ast.Node, s S) []S {
 			return []S{s}
 		}
 		s = bf.applyCallResults(n, s)
+		if len(y.Rhs) == 1 && bf.SymResult != nil {
+			if call, ok := ast.Unparen(y.Rhs[0]).(*ast.CallExpr); ok {
+				for i, l := range y.Lhs {
+					id, isId := ast.Unparen(l).(*ast.Ident)
+					if !isId {
+						continue
+					}
+					o := ObjOf(info, id)
+					if o == nil || !bf.local[o] || !IsBoolType(o.Type()) {
+						continue
+					}
+					if len(y.Lhs) == 1 && i > 0 {
+						continue
+					}
+					if a := bf.SymResult(call, i, s); a != "" {
+						s = s.Set("sy:"+VarID(o), a).Del("v:" + VarID(o))
+					} else {
+						s = s.Del("sy:" + VarID(o))
+					}
+				}
+			}
+		}
 		if len(y.Lhs) != len(y.Rhs) {
 			return []S{s}
 		}
